@@ -262,6 +262,27 @@ def r3(ctx):
   comp = [c for c in ast.walk(f.node) if isinstance(c, ast.ListComp) and any(ca is calls[0] for ca in ast.walk(c))] if calls else []
   ok = bool(comp) and U(comp[0].generators[0].iter).endswith('VARZ_PERCENTILES') and U(calls[0].args[1]) == U(comp[0].generators[0].target)
   ctx.ob('C18.R3', f, 'one percentile per list entry, in list order', ok, 'percentile comprehension changed', whyp)
+  # which metric kinds are reported as the plain sum over sources: resolve the membership test of the "total = work" branch
+  vt = prog.cls(V, 'VarzType')
+  summed = None
+  for n in ast.walk(f.node):
+    if isinstance(n, ast.If) and isinstance(n.test, ast.Compare) and len(n.test.ops) == 1 and isinstance(n.test.ops[0], ast.In) and U(n.test.left) == 'varz_type':
+      sets_total = [st for st in ast.walk(ast.Module(body=n.body, type_ignores=[])) if isinstance(st, ast.Assign) and U(st.targets[0]).endswith('.total') and U(st.value).endswith('.work')]
+      if not sets_total:
+        continue
+      coll = n.test.comparators[0]
+      if isinstance(coll, (ast.Name, ast.Attribute)):
+        nm = U(coll).split('.')[-1]
+        cands = [c_.consts.get(nm) for c_ in (prog.cls(V, 'VarzAggregator'),) if c_ is not None] + [prog.module(V).assigns.get(nm)]
+        coll = next((x for x in cands if x is not None), coll)
+      if isinstance(coll, ast.Call) and coll.args:
+        coll = coll.args[0]
+      if isinstance(coll, (ast.Tuple, ast.List, ast.Set)):
+        summed = set(U(e).split('.')[-1] for e in coll.elts)
+  need = {'Counter', 'Rate'}
+  ctx.ob('C18.R3', f, 'counter and rate metrics are reported as the sum over the sources of the service', summed is not None and need <= summed,
+         'metric kinds reported as total = sum: %s (Counter and Rate must be among them; anything else falls into the mean branch work / count)' % (sorted(summed) if summed is not None else None),
+         'counter and rate metrics aggregated per service equal the sum of all increments recorded for that service')
   # the roll-up walks the shared metric tables while other greenlets keep recording: a loop over a live dict view
   # whose body yields dies with "dictionary changed size during iteration" and the whole aggregate is lost
   from ..util import is_yield_call
